@@ -636,7 +636,7 @@ func checkFilterPublisherFlows(c *Ctx) {
 		}
 		ok := false
 		for _, pa := range pathsOf(c, fn) {
-			if pa.End.Kind != "return" || len(pa.End.Results) != 2 || !pa.End.Results[1].IsNil() {
+			if pa.End.Kind != "return" || len(pa.End.Results) != 2 || !pa.End.Results[1].IsNil() || !errNilOnPath(pa) {
 				continue
 			}
 			r := pa.End.Results[0]
@@ -685,7 +685,7 @@ func checkFilterPublisherFlows(c *Ctx) {
 		}
 		ok := false
 		for _, pa := range pathsOf(c, fn) {
-			if pa.End.Kind != "return" || len(pa.End.Results) != 2 || !pa.End.Results[1].IsNil() {
+			if pa.End.Kind != "return" || len(pa.End.Results) != 2 || !pa.End.Results[1].IsNil() || !errNilOnPath(pa) {
 				continue
 			}
 			r := pa.End.Results[0]
@@ -702,4 +702,19 @@ func checkFilterPublisherFlows(c *Ctx) {
 		}
 		c.check(ok, rule, k[0]+"/over-a-fresh-subscription-of-this-publisher", c.P.fnPos(fn), "", k[0]+" does not build its result over a fresh s.Subscribe()")
 	}
+}
+
+// errNilOnPath: the path carries a literal "<some call's error> == nil" that is true
+// and none that is false (the success path of an acquire-then-wrap function).
+func errNilOnPath(pa *Path) bool {
+	seen := false
+	for _, l := range pa.Lits {
+		if x, ok := isNilTest(l.T); ok && x.K == "extract" && x.S == "1" {
+			if !l.Val {
+				return false
+			}
+			seen = true
+		}
+	}
+	return seen
 }
